@@ -188,6 +188,26 @@ def replay_localapp(rec, m):
                     pass
             return bad, (f"join() called in state {s0.name}: {out}; state {before[0].name} -> {app._state.name}, "
                          f"clean_up calls {before[1]} -> {app.cleanups} (AppStateError and no side effect expected: {not allowed})")
+        if "time_limit_handed_to_the_wait" in ob:
+            import subprocess as sp
+            # a child that runs for 4 s: join(timeout=0.3) must give up after 0.3 s with TimeoutError
+            app = LProbe("/bin/sleep")
+            app.add_additional_options(["4"])
+            app.start()
+            proc = app.get_process()
+            t0 = time.time()
+            try:
+                app.join(timeout=0.3)
+                out = "returned"
+            except Exception as e:
+                out = type(e).__name__
+            took = time.time() - t0
+            try:
+                proc.wait(timeout=6)
+            except sp.TimeoutExpired:
+                proc.kill()
+            bad = out != "TimeoutError" or took > 2.5
+            return bad, f"child that runs for 4 s: join(timeout=0.3) {out} after {took:.1f} s, state={app._state.name} (TimeoutError after 0.3 s expected)"
         if "output_captured_when_the_end_is_reported" in ob:
             # poll until FINISHED (no join), then read what the program wrote: allowed from FINISHED on
             app = LProbe("/bin/echo")
